@@ -23,7 +23,8 @@ fn main() {
     let kmax = if quick { 6 } else { 8 };
     let mut st = ohmc::props::structured::shapes(kmax);
     st.extend(ohmc::props::structured::programs(kmax));
-    ctx.run_slice(Slice::new(format!("structured[sizes 1..{}: {} diagrams]", kmax, st.len()), st.len() as u64, |i, loc| check::<B>(&st[i as usize].1, loc)));
+    st.extend(ohmc::props::structured::degree_probes(if quick { 9 } else { 17 }));
+    ctx.run_slice(Slice::new(format!("structured[sizes 1..{}, degree probes up to 9-17: {} diagrams]", kmax, st.len()), st.len() as u64, |i, loc| check::<B>(&st[i as usize].1, loc)));
     // the same families at large size parameters
     let sizes: Vec<usize> = if quick { vec![33, 64, 65, 129] } else { vec![33, 64, 65, 129, 255, 256, 257, 513] };
     let mut big = ohmc::props::structured::shapes_at(&sizes, false);
